@@ -785,3 +785,10 @@ BENIGN["C08"] += [
 BENIGN["C08"] += [
     (TURBF, "    r = numpy.float64(r)\n", "    r_ = r\n    r = numpy.float64(r_)\n"),
 ]
+
+# ---- an anchored function moved to a private module and imported back under its name: the anchor follows the binding
+_C14M = "selftest/refactorings/c14_circle_moved.diff"
+SEEDED_ON.setdefault("C14", []).extend([
+    (_C14M, "aotools/functions/_circle_impl.py", "    mask = x * x + y * y <= radius * radius", "    mask = x * x + y * y < radius * radius", "M1"),
+    (_C14M, "aotools/functions/_circle_impl.py", "        coords -= size / 2.", "        coords -= size // 2", "M1"),
+])
